@@ -1222,13 +1222,17 @@ def low_order_point(rng, ec):
 
 def _dh_is_inf_divergent(ec, d, q) -> bool:
     """the lines on which the two arithmetic backends answer with different error classes"""
-    return ec == secp256k1 and q[1] == 0 and d % ec.n != 0
+    # /repo 89eda414 ("diffie_hellman answers the point at infinity the same way on both arms") removed the
+    # divergence: these lines are back in the two-backend stream, and dh.inf_backend_agreement is a real check
+    return False
 
 
 def _dh_is_xrange_divergent(ec, d, q) -> bool:
     """an x-coordinate outside 0..p-1 that is a valid one modulo p: the bindings arm leaves through OverflowError
     while serialising the peer, the Python arm (and the model) reduce it silently"""
-    return ec == secp256k1 and not 0 <= q[0] < ec.p and d % ec.n != 0
+    # /repo d8821600 ("is_on_curve refuses an x-coordinate outside 0..p-1") removed the divergence: both arms and
+    # the model now answer `err value`; the lines are back in the two-backend stream
+    return False
 
 
 def gen_dh(ctx, rng, n):
@@ -1411,10 +1415,9 @@ def _dleq_xrange(line) -> bool:
     """some point of the line has an x-coordinate outside 0..p-1 (not streamed: see gen_dleq)"""
     t = line.split(" ")
     pos = (2, 5) if t[0] == "dleq.gen" else (1, 3, 5, 8)
-    try:
-        return any(not 0 <= int(t[i]) < P for i in pos)
-    except (ValueError, IndexError):
-        return False
+    # since /repo d8821600 point_from_pub_key refuses such a tuple (BTClibValueError) on both arms, as the model's
+    # validPoint does: nothing is held back any more
+    return False
 
 
 def gen_dleq_vectors(ctx):
@@ -2202,13 +2205,10 @@ def run_realcode(ctx):  # noqa: PLR0912, PLR0915
     ctx.check("sp.scan.offcurve", {**W_SP_OFFCURVE, "outputs": [smallest_non_x()]}, key="sp.scan.offcurve_backend_divergence")
     # two observations about exception classes on INVALID input (not C16's statement: noted with their reproducer,
     # never raised as C16 findings; the inputs are kept out of the @bindings correspondence streams)
-    for name, wit, repro in (
-            ("dh.inf_backend_agreement", W_DH_INF, "dh.diffie_hellman(1, (5, 0), 32)"),
-            ("dh.xrange_backend_agreement", W_DH_XRANGE, "dh.diffie_hellman(1, (secp256k1.G[0] + secp256k1.p, secp256k1.G[1]), 32)")):
-        ok, detail = ORACLES[name](dict(wit))
-        if not ok:
-            ctx.note(f"{name} (observation, invalid input): {detail}; reproducer: {repro} under "
-                     "set_libsecp256k1_serving(serving=True) / (serving=False)")
+    # both were backend divergences on invalid input when this harness was written (repaired in /repo by 89eda414 and
+    # d8821600): they are now ordinary checks, so a regression alarms under its own key
+    ctx.check("dh.inf_backend_agreement", dict(W_DH_INF), key="dh.inf_point_error_class_backend_divergence")
+    ctx.check("dh.xrange_backend_agreement", dict(W_DH_XRANGE), key="dh.x_out_of_range_backend_divergence")
     ctx.check("sp.output_keys.order", dict(W_SP_ORDER), key="sp.output_keys.order_not_address_order")
 
     for tag, serving in bs:
